@@ -8,7 +8,7 @@ import random
 import streamlib as sl
 from vlib import build_lib
 
-THEOREMS = None
+THEOREMS = ["C11_fast_stream", "C11_continue_decodes", "C11_hist_prelude", "C11_hist_write_block", "C11_hist_saveDict", "C11_renorm", "C11_shift"]
 ORACLES = ["stream"]
 CORRESPONDENCE = ["Model.FastStream (initStream, resetStream_fast, loadDict/loadDictSlow, attach_dictionary, renormDictT, compress_fast_continue, "
                   "compress_forceExtDict, saveDict, one-shot entry points) == lib/lz4.c: return value, output bytes, currentOffset, tableType, dictSize, "
